@@ -37,7 +37,34 @@ def run(ctx):
                          "no choice among actors is made by comparing generated ids" if not by_id else
                          f"'{stmt_text(x)}' picks among child actors by comparing ids; ids of actors spawned without an explicit id end in a "
                          f"uuid4, so which actor is chosen differs from run to run", x)
-    # R3: iteration over dict-of-sets in cancel_all is accepted (cancel order is not an observable) -- listed
+    # ---- R3 declaration (document) order is kept: mappings / lists that come from the definition, and the registries whose first
+    #         match wins, are iterated as they are - never through sorted() / reversed() / set() --------------------------------
+    ORDERED = ("states", "on", "after", "invoke", "transitions", "_actors", "_actor_sources", "on_done", "on_error", "entry", "exit", "actions")
+    n3 = 0
+    ORDER_SENSITIVE = {"_enter_states", "_collect_eligible_transitions", "_matching_descriptors", "_resolve_actor_target", "_persist_actors", "from_snapshot",
+                       "_execute_actions", "_select_transitions", "_resolve_history_target"}
+    for f in p.funcs_in("models", "base_interpreter", "interpreter", "sync_interpreter", "resolver"):
+        if f.module.name != "models" and f.name not in ORDER_SENSITIVE:
+            continue        # e.g. the done-ness test or the arming of timers visit every element: their order is not observable
+        if f.name.startswith(("to_", "build_")) or (f.parent is not None and f.parent.name.startswith("to_")):
+            continue        # diagram export
+        for x in own_nodes(f.node):
+            it = x.iter if isinstance(x, (ast.For, ast.comprehension)) else None
+            if it is None:
+                continue
+            wrap = [y for y in ast.walk(it) if isinstance(y, ast.Call) and isinstance(y.func, ast.Name) and y.func.id in ("sorted", "reversed", "set", "frozenset")]
+            if not wrap:
+                continue
+            inner = " ".join(norm(a_) for y in wrap for a_ in y.args)
+            from_def = any(("." + k + ".") in inner or inner.endswith("." + k) or ("." + k + "[") in inner or ("." + k + ")") in inner or f"raw_{k}" in inner for k in ORDERED)
+            if not from_def:
+                continue
+            n3 += 1
+            c.ob("R3", False, f, f"declaration-order-kept:{inner[:40]}",
+                 f"'{norm(it)}' in {f.short} iterates a definition-ordered collection through {wrap[0].func.id}(): declaration order decides which candidate is first, "
+                 f"in which order regions are entered and which recorded actor an address means - two spellings of the same machine (and the two engines) diverge", x if isinstance(x, ast.For) else it)
+    c.ob("R3", True, "engine + front-end", "declaration-order", f"{n3} re-ordered iterations over definition-ordered collections (expected 0)", None, nontrivial=False)
+    # R3b: iteration over dict-of-sets in cancel_all is accepted (cancel order is not an observable) -- listed
     c.note("TaskManager.cancel_all flattens a dict of sets: accepted, cancellation order is not among the compared observables")
     # R4: region entry follows document (dict) order: the region list is built from .states.values() without re-sorting through a set
     from .roles import VIEWS, roles
